@@ -293,3 +293,192 @@ def spell_float(rng, f):
         s = _us_digits(rng, ip) + "." + _us_digits(rng, fp)
         return s, form if "_" in s else "fixed", True
     return "0" * rng.randint(1, 3) + ip + "." + fp, "leadzero", True
+
+
+# ----------------------------------------------------------------- literal boundaries
+# Adjacent string literals denote the concatenation of the VALUES of the individual literals
+# (property C14: "same values as Python literals ... adjacent string concatenation"; CHANGES 2.5
+# "implicit string literal concatenation"; Python reference: "multiple adjacent string literals
+# ... are allowed, and their meaning is the same as their concatenation").  Each literal is escape-complete on its
+# own, so what the next literal starts with can never extend the last escape of the previous
+# one.  TAILS: what a literal may END in - every escape kind, incl. the variable-length octal
+# escapes with 1, 2 and 3 digits; HEADS: what the next literal may START with - characters that
+# WOULD extend / complete / re-interpret the escape if the literal bodies were glued together
+# before decoding (octal digits, hex digits, braces, escape letters) and escapes of its own.
+TAILS = [
+    # (kind, text inside the quotes, value)
+    ("esc-oct-1digit", "\\1", "\x01"), ("esc-oct-1digit", "\\0", "\x00"),
+    ("esc-oct-1digit", "\\7", "\x07"),
+    ("esc-oct-2digit", "\\12", "\n"), ("esc-oct-2digit", "\\00", "\x00"),
+    ("esc-oct-2digit", "\\37", "\x1f"), ("esc-oct-2digit", "\\01", "\x01"),
+    ("esc-oct-3digit", "\\101", "A"), ("esc-oct-3digit", "\\001", "\x01"),
+    ("esc-oct-3digit", "\\377", "\xff"),
+    ("esc-x", "\\x41", "A"), ("esc-x", "\\x0a", "\n"), ("esc-x", "\\xfF", "\xff"),
+    ("esc-u", "\\u0041", "A"), ("esc-u", "\\u20ac", "€"),
+    ("esc-U", "\\U00000041", "A"), ("esc-U", "\\U0001f600", "\U0001f600"),
+    ("esc-N", "\\N{DIGIT ONE}", "1"), ("esc-N", "\\N{LATIN SMALL LETTER A}", "a"),
+    ("esc-simple", "\\n", "\n"), ("esc-simple", "\\t", "\t"), ("esc-simple", "\\'", "'"),
+    ("esc-simple", '\\"', '"'),
+    ("esc-backslash", "\\\\", "\\"), ("esc-backslash", "a\\\\", "a\\"),
+    ("linecont", "\\\n", ""), ("linecont", "b\\\n", "b"),
+    ("raw", "a", "a"), ("raw", "7", "7"),
+]
+HEADS = [
+    # (class, text inside the quotes, value)
+    ("octal-digit", "1", "1"), ("octal-digit", "0", "0"), ("octal-digit", "7", "7"),
+    ("octal-digit", "12", "12"), ("octal-digit", "123", "123"), ("octal-digit", "01", "01"),
+    ("digit-8-9", "8", "8"), ("digit-8-9", "91", "91"),
+    ("hex-letter", "a", "a"), ("hex-letter", "F", "F"), ("hex-letter", "fe", "fe"),
+    ("octal-digit", "41", "41"), ("octal-digit", "0041", "0041"),
+    ("octal-digit", "00000041", "00000041"), ("digit-8-9", "9f", "9f"),
+    ("brace", "{", "{"), ("brace", "{DIGIT ONE}", "{DIGIT ONE}"), ("brace", "}", "}"),
+    ("escape-letter", "n", "n"), ("escape-letter", "t", "t"), ("escape-letter", "x41", "x41"),
+    ("escape-letter", "u0041", "u0041"), ("escape-letter", "U00000041", "U00000041"),
+    ("escape-letter", "N{DIGIT ONE}", "N{DIGIT ONE}"),
+    ("escape", "\\1", "\x01"), ("escape", "\\\\", "\\"), ("escape", "\\x31", "1"),
+    ("escape", "\\n", "\n"),
+    ("other", " ", " "), ("other", "z", "z"),
+]
+BOUNDARY_JOINERS = ["", " ", "  ", "\t", "\n", " \n ", "\r\n", "\r"]
+QUOTE_PAIRS = [("'", "'"), ('"', '"'), ("'", '"'), ('"', "'")]
+
+
+def head_class(text):
+    """Class of what a literal body starts with (for mechanism keys)."""
+    c = text[:1]
+    if c == "\\":
+        return "escape"
+    if c in "01234567":
+        return "octal-digit"
+    if c in "89":
+        return "digit-8-9"
+    if c in "{}":
+        return "brace"
+    if c in "nrtvxuUNo":
+        return "escape-letter"
+    if c in "abcdefABCDEF":
+        return "hex-letter"
+    return "other"
+
+
+def tail_kind(atom_kind, text):
+    if atom_kind in ("esc-oct", "esc-oct-short"):
+        return "esc-oct-%ddigit" % (len(text) - 1)
+    if atom_kind == "esc-simple" and text == "\\\\":
+        return "esc-backslash"
+    return "raw" if atom_kind.startswith("raw") else atom_kind
+
+
+def glued_value(parts):
+    """Python's reading of ONE literal whose body is the bodies of all parts glued together (what
+    decoding after joining would give): ("ok", value) | ("rejected",) | ("n/a",) when the bodies
+    cannot share one quote style."""
+    body = "".join(p["text"][1:-1] for p in parts)
+    if "\n" in body.replace("\\\n", "") or "\r" in body:
+        return ("n/a",)
+    for q in ("'", '"'):
+        if q not in body.replace("\\\\", "").replace("\\" + q, ""):
+            pv = python_value(q + body + q)
+            return ("ok", pv[1]) if pv[0] == "ok" else ("rejected",) if pv[0] == "rejected" \
+                else ("n/a",)
+    return ("n/a",)
+
+
+def boundary_spelling(parts, joiners):
+    """parts: [{'text': quoted literal, 'value': str, 'tail': kind|None, 'head': class|None}]"""
+    out = parts[0]["text"]
+    for j, p in zip(joiners, parts[1:]):
+        out += j + p["text"]
+    return out
+
+
+def boundary_info(parts, joiners, form):
+    value = "".join(p["value"] for p in parts)
+    kinds = sorted({p["tail"] for p in parts[:-1]} | {"linecont" for p in parts
+                                                      if "\\\n" in p["text"]})
+    g = glued_value(parts)
+    return value, {"form": form, "kinds": kinds, "nparts": len(parts), "joiners": list(joiners),
+                   "atoms": None, "parts": [[p["text"], p["value"]] for p in parts],
+                   "boundaries": [[a["tail"], head_class(b["text"][1:-1])]
+                                  for a, b in zip(parts, parts[1:])],
+                   "glue": "n/a" if g[0] == "n/a" else "invalid" if g[0] == "rejected" else
+                   ("same" if g[1] == value else "changes-value")}
+
+
+def systematic_boundary(tail, head, qpair, joiner):
+    tk, tt, tv = tail
+    hc, ht, hv = head
+    q1, q2 = qpair
+    parts = [{"text": q1 + tt + q1, "value": tv, "tail": tk},
+             {"text": q2 + ht + q2, "value": hv, "tail": None}]
+    value, info = boundary_info(parts, [joiner], "concat-boundary-table")
+    return boundary_spelling(parts, [joiner]), value, info
+
+
+_HEAD_CHARS = "0123456701234567" + "89" + "abcdefABCDEF" + "{}" + "nrtvxuUNo" + " z-"
+
+
+def random_boundary(rng):
+    """2-4 adjacent literals; every boundary falls directly after a randomly spelled ESCAPE
+    (or, now and then, a raw character) of a random character, and the next literal starts with a
+    raw character drawn from the digits / hex digits / braces / escape letters (or an escape)."""
+    k = rng.choice((2, 2, 3, 4))
+    parts = []
+    for i in range(k):
+        q = rng.choice("'\"")
+        body, value = [], []
+        if i > 0:
+            if rng.random() < 0.85:
+                n = rng.choice((1, 1, 2, 3, 8))
+                h = "".join(rng.choice(_HEAD_CHARS) for _ in range(n))
+                if rng.random() < 0.3:
+                    h = rng.choice(("{DIGIT ONE}", "x41", "u0041", "N{DIGIT ONE}", "123", "0041"))
+                body.append(h)
+                value.append(h)
+            else:
+                ch = CLASSES[rng.randrange(len(CLASSES))][1](rng)
+                kind, text = rng.choice([o for o in atom_options(ch, q)
+                                         if not o[0].startswith("raw")
+                                         and o[0] != "esc-oct-short"])
+                body.append(text)
+                value.append(ch)
+        # middle
+        mid, _ = gen_value(rng, 4)
+        if mid and rng.random() < 0.5:
+            t, at = spell_part(rng, mid, q, rng.choice(["mixed", "esc-only"]))
+            if not any(a[0] == "linecont" for a in at):
+                # a short octal escape must not be followed by the raw digit that may come next
+                # INSIDE this literal; re-spell the last atom long
+                if at and at[-1][0] == "esc-oct-short":
+                    t = t[:-1 - len(at[-1][1])] + ("\\%03o" % ord(mid[-1])) + t[-1]
+                body.append(t[1:-1])
+                value.append(mid)
+        tail = None
+        if i < k - 1:
+            if rng.random() < 0.9:
+                pool = [c for c in CLASSES if c[0] not in ("surrogate",)]
+                ch = rng.choice(pool)[1](rng) if rng.random() < 0.5 else \
+                    chr(rng.choice([0, 1, 2, 7, 8, 9, 10, 13, 27, 31, 33, 48, 63, 65, 127, 255]))
+                opts = [o for o in atom_options(ch, q) if not o[0].startswith("raw")]
+                kind, text = rng.choice(opts)
+                short = [o for o in opts if o[0] == "esc-oct-short"]
+                if short and rng.random() < 0.35:
+                    kind, text = short[0]
+                    if rng.random() < 0.4 and ord(ch) < 8:
+                        text = "\\0%o" % ord(ch)           # two-digit form
+                tail = tail_kind(kind, text)
+            else:
+                ch = rng.choice("a7f{\\")
+                text = SIMPLE.get(ch, ch)
+                tail = tail_kind("esc-simple" if ch in SIMPLE else "raw-ascii", text)
+            body.append(text)
+            value.append(ch)
+        parts.append({"text": q + "".join(body) + q, "value": "".join(value), "tail": tail})
+    joiners = []
+    for a, b in zip(parts, parts[1:]):
+        j = rng.choice(BOUNDARY_JOINERS)
+        if j == "" and (len(b["text"]) == 2 or len(a["text"]) == 2):
+            j = " "        # three quotes in a row would start a triple-quoted string in Python
+        joiners.append(j)
+    value, info = boundary_info(parts, joiners, "concat-boundary")
+    return boundary_spelling(parts, joiners), value, info
